@@ -319,7 +319,14 @@ pub fn encode_sfnt(model: &Model, lay: &SfntLayout, ttc: bool) -> Encoded {
             h.u32(*o as u32);
         }
         if lay.ttc_version >= 2 {
-            h.u32(lay.dsig.0).u32(lay.dsig.1).u32(lay.dsig.2);
+            if lay.dsig.1 == u32::MAX && lay.dsig.2 == u32::MAX && lay.trailing > 0 {
+                // a signature block that really exists: the trailing bytes at the end of the file
+                // (where signed collections put it), offset measured from the start of the file
+                let len = lay.trailing as u32;
+                h.u32(lay.dsig.0).u32(len).u32(bytes.len() as u32 - len);
+            } else {
+                h.u32(lay.dsig.0).u32(lay.dsig.1).u32(lay.dsig.2);
+            }
         }
         bytes[..h.len()].copy_from_slice(&h.0);
     }
